@@ -5,6 +5,8 @@ The EVM enters through two explicit hypotheses only: `succ` (does the simulated 
 an arbitrary function for soundness/termination, and monotone ("programs that do not inspect remaining gas") for
 sufficiency.  `gasUsed ≤ gasLimit` is revm's contract and is validated by correspondence, not proved.
 -/
+import Brc20.Model.DriverE
+import Brc20.Props.C10
 import Brc20.Model.FailedTx
 import Brc20.Proofs.FailedTx
 import Brc20.Proofs.Node
@@ -202,5 +204,30 @@ open Node in
 example : ({} : Node).failedTxOk
     [.x "tx" [("caller", "aa")] true false 21000 0, .s "account" 0 "aa" (some "row"),
      .s "account" 0 zeroAddr (some emptyAccountRow)] = true := by decide
+
+/-- the recorded events of a protocol line, as `DriverE.stepCore` parses them -/
+def DriverE.eventsOf (line : String) : List Node.Ev := ((line.splitOn " ## ").drop 1).map DriverE.parseEv
+
+open Node in
+/-- **The driver applies the discipline to every single-transaction call**: a `deploy` / `call` / `deposit` /
+`withdraw` line that the model answers `ok` passed `failedTxOk` (so `C16.failed_tx_changes_no_state` applies to it
+whenever its run failed); a recorded failed run that wrote state is answered `model-reject` instead and shows up as a
+broken correspondence. -/
+theorem C16.accepted_call_passed_discipline (n : Node) (line : String)
+    (hop : DriverE.opOf line = "deploy" ∨ DriverE.opOf line = "call" ∨ DriverE.opOf line = "deposit" ∨
+      DriverE.opOf line = "withdraw")
+    (hok : (DriverE.stepCore n line).2 = .inl .ok) : n.failedTxOk (DriverE.eventsOf line) = true := by
+  unfold DriverE.opOf at hop
+  unfold DriverE.stepCore at hok
+  unfold DriverE.eventsOf
+  rcases hop with h | h | h | h <;> simp only [h] at hok <;>
+    (split at hok
+     · cases hok
+     · split at hok
+       · cases hok
+       · split at hok
+         · cases hok
+         · rename_i hd
+           simpa using hd)
 
 end Brc20
